@@ -79,3 +79,69 @@ func familyInts(fam int) []int64 {
 	}
 	return collidingInts[(fam-1)%len(collidingInts)]
 }
+
+// Injection twins: two distinct structures whose set hashes collide because one of them carries, inside a key or a
+// string, the text of the other's separators (a hash or an index computed over an unescaped rendering cannot tell
+// {"a":1,"b":2} from a map whose single key spells `a":1;"b`). Nothing is assumed about the rendering: at start-up
+// a small grammar of such keys is tried against the public Hash method of the library under test, and whatever
+// collides becomes workload (on a library that escapes properly nothing does, and nothing is added).
+type injectionTwin struct {
+	list bool        // list(string) members, else map(number) members
+	a, b [][2]string // members as (key, value-text) pairs; for lists the key is unused
+}
+
+var injectionTwins []injectionTwin
+
+func init() {
+	quotes := []string{`"`, `'`, ""}
+	kv := []string{":", "=", ": ", "=>", " "}
+	seps := []string{";", ",", ", ", "; ", " ", ";;", ",,"}
+	m1 := cty.MapVal(map[string]cty.Value{"a": cty.NumberIntVal(1), "b": cty.NumberIntVal(2)})
+	l1 := cty.ListVal([]cty.Value{cty.StringVal("a"), cty.StringVal("b")})
+	for _, q := range quotes {
+		for _, sp := range seps {
+			k := "a" + q + sp + q + "b"
+			if len(injectionTwins) < 8 && cty.ListVal([]cty.Value{cty.StringVal(k)}).Hash() == l1.Hash() {
+				injectionTwins = append(injectionTwins, injectionTwin{list: true, a: [][2]string{{"", "a"}, {"", "b"}}, b: [][2]string{{"", k}}})
+			}
+			for _, c1 := range kv {
+				for _, r := range []string{"1", "1.0", "+1"} {
+					k := "a" + q + c1 + r + sp + q + "b"
+					if len(injectionTwins) < 8 && cty.MapVal(map[string]cty.Value{k: cty.NumberIntVal(2)}).Hash() == m1.Hash() {
+						injectionTwins = append(injectionTwins, injectionTwin{a: [][2]string{{"a", "1"}, {"b", "2"}}, b: [][2]string{{k, "2"}}})
+					}
+				}
+			}
+		}
+	}
+}
+
+// injectionMembers returns the two members of a twin as descriptions of the element type t (list(string) or
+// map(number)), or nil when no twin exists for it.
+func injectionMembers(t *TDesc, pick int) []*VDesc {
+	var fit []injectionTwin
+	for _, tw := range injectionTwins {
+		if (tw.list && t.K == KList && t.Elem.K == KString) || (!tw.list && t.K == KMap && t.Elem.K == KNumber) {
+			fit = append(fit, tw)
+		}
+	}
+	if len(fit) == 0 {
+		return nil
+	}
+	tw := fit[pick%len(fit)]
+	mk := func(pairs [][2]string) *VDesc {
+		v := &VDesc{T: t}
+		for _, p := range pairs {
+			e := &VDesc{T: t.Elem}
+			if t.Elem.K == KString {
+				e.S = p[1]
+			} else {
+				e.Num = NumDesc{Mode: NumParse, Text: p[1]}
+				v.Keys = append(v.Keys, p[0])
+			}
+			v.Elems = append(v.Elems, e)
+		}
+		return v
+	}
+	return []*VDesc{mk(tw.a), mk(tw.b)}
+}
